@@ -3359,6 +3359,22 @@ done:
     return ret_value;
 } /* HMCPwrite */
 
+
+/* key for finding another access record that shares the same chunk information */
+typedef struct {
+    const void     *info; /* the shared chunkinfo_t */
+    const accrec_t *self; /* the access record to skip */
+} HMCI_spinfo_key;
+
+static int
+HMCIcompare_spinfo(const void *obj, const void *key)
+{
+    const accrec_t        *rec = (const accrec_t *)obj;
+    const HMCI_spinfo_key *k   = (const HMCI_spinfo_key *)key;
+
+    return rec != k->self && rec->special == SPECIAL_CHUNKED && rec->special_info == k->info;
+}
+
 /* ---------------------------------------------------------------------
 NAME
    HMCPcloseAID -- close file but keep AID active
@@ -3441,6 +3457,19 @@ HMCPcloseAID(accrec_t *access_rec /* IN:  access record of file to close */)
         if (sync_failed)
             HGOTO_ERROR(DFE_WRITEERROR, FAIL);
     } /* attached to info */
+    else if (info->chk_cache != NULL) {
+        /* Other access records still share this chunk information.  The chunk
+           cache hands the access record it was set up with to the page-in and
+           page-out routines; this one is about to be released, so pass the
+           cache on to an access record that stays. */
+        HMCI_spinfo_key key;
+        accrec_t       *other;
+
+        key.info = info;
+        key.self = access_rec;
+        if ((other = (accrec_t *)HAsearch_atom(AIDGROUP, HMCIcompare_spinfo, &key)) != NULL)
+            mcache_filter(info->chk_cache, HMCPchunkread, HMCPchunkwrite, other);
+    }
 
 done:
     return ret_value;
